@@ -2,7 +2,7 @@ SPECIFICATION Spec
 CONSTANTS
  MaxSteps = 3
  Flags = {}
- Univ = {"a.py", "apps/p/__init__.py", "apps/p.py", "apps/p/h.py", "modules/m/__init__.py", "modules/m.py", "modules/m/u.py", "modules/n.py", "scripts/s.py", "scripts/sub/t.py"}
+ Univ = {"a.py", "apps/p/__init__.py", "apps/p.py", "apps/p/h.py", "modules/m/__init__.py", "modules/m.py", "modules/m/u.py", "modules/n.py", "modules/d.py", "scripts/s.py", "scripts/sub/t.py"}
  Graph = "dense"
  Trees = "all"
  Mask = {}
